@@ -62,6 +62,12 @@ type IndexedState struct {
 
 	cachedRules map[string]*Rule
 
+	// cacheMu guards cachedRules.  Entries are added while holding
+	// (at least) the state's read lock and removed while holding
+	// the lock that protects the change of the rule, so an entry
+	// never outlives the rule body it was parsed from.
+	cacheMu sync.Mutex
+
 	addHook AddHookFn
 
 	remHook RemHookFn
@@ -256,13 +262,17 @@ func extractTermsAux(ctx *Context, x interface{}, terms StringSet, depth int) {
 
 func (s *IndexedState) Add(ctx *Context, id string, x Map) (string, error) {
 	Log(DEBUG, ctx, "IndexedState.Add", "state", s.Name, "factx", x, "id", id)
-	delete(s.cachedRules, id)
 	id, err := func() (string, error) {
 		// Unlock even if something below panics; otherwise the
 		// location is blocked for good.
 		s.slock(ctx, false)
 		defer s.sunlock(ctx, false)
-		return s.add(ctx, id, x)
+		id, err := s.add(ctx, id, x)
+		if err == nil {
+			// Whatever was cached for this id is stale now.
+			s.uncacheRule(id)
+		}
+		return id, err
 	}()
 
 	if nil != err {
@@ -441,7 +451,7 @@ func (s *IndexedState) Rem(ctx *Context, id string) (bool, error) {
 
 func (s *IndexedState) rem(ctx *Context, id string) (bool, error) {
 	Log(DEBUG, ctx, "IndexedState.rem", "name", s.Name, "id", id)
-	delete(s.cachedRules, id)
+	s.uncacheRule(id)
 
 	// Currently we don't return an error if the fact isn't found.
 	// ToDo: Reconsider.  For example, maybe have an additional
@@ -535,7 +545,7 @@ func (s *IndexedState) Clear(ctx *Context) error {
 	s.slock(ctx, false)
 	defer s.sunlock(ctx, false)
 
-	s.cachedRules = make(map[string]*Rule)
+	s.uncacheRules()
 	if err := s.remHooks(ctx); err != nil {
 		return err
 	}
@@ -553,7 +563,7 @@ func (s *IndexedState) Delete(ctx *Context) error {
 	s.slock(ctx, false)
 	defer s.sunlock(ctx, false)
 
-	s.cachedRules = make(map[string]*Rule)
+	s.uncacheRules()
 	if err := s.remHooks(ctx); err != nil {
 		return err
 	}
@@ -728,7 +738,12 @@ func (s *IndexedState) FindRules(ctx *Context, event Map) (map[string]Map, error
 func (s *IndexedState) doFindRules(ctx *Context, event Map) (map[string]Map, error) {
 	s.slock(ctx, true)
 	defer s.sunlock(ctx, true)
+	return s.findRules(ctx, event)
+}
 
+// findRules does the work for doFindRules.  Assumes we have (at
+// least) a read lock.
+func (s *IndexedState) findRules(ctx *Context, event Map) (map[string]Map, error) {
 	acc := make(map[string]Map)
 	ss, err := s.RuleIndex.SearchPatternsMap(ctx, map[string]interface{}(event))
 	if err != nil {
@@ -782,7 +797,14 @@ func (s *IndexedState) FindCachedRules(ctx *Context, event Map) (map[string]*Rul
 	timer := NewTimer(ctx, "IndexedState.FindCachedRules")
 	defer timer.Stop()
 
-	rules, err := s.doFindRules(ctx, event)
+	// Keep the read lock until the cache has been consulted (and
+	// perhaps filled).  Otherwise a concurrent Add of the same id
+	// could slip in between, and we'd cache a rule parsed from a
+	// body that has already been replaced.
+	s.slock(ctx, true)
+	defer s.sunlock(ctx, true)
+
+	rules, err := s.findRules(ctx, event)
 	if err != nil {
 		return nil, err
 	}
@@ -790,16 +812,33 @@ func (s *IndexedState) FindCachedRules(ctx *Context, event Map) (map[string]*Rul
 
 	acc := make(map[string]*Rule)
 	for id, r := range rules {
-		if _, isCached := s.cachedRules[id]; isCached {
-			acc[id] = s.cachedRules[id]
-		} else {
-			rule, err := RuleFromMap(ctx, r)
-			if err != nil {
+		s.cacheMu.Lock()
+		rule, isCached := s.cachedRules[id]
+		s.cacheMu.Unlock()
+		if !isCached {
+			var err error
+			if rule, err = RuleFromMap(ctx, r); err != nil {
 				return nil, err
 			}
-			acc[id] = rule
+			// Set the id before the rule is shared.
+			rule.Id = id
+			s.cacheMu.Lock()
 			s.cachedRules[id] = rule
+			s.cacheMu.Unlock()
 		}
+		acc[id] = rule
 	}
 	return acc, nil
+}
+
+func (s *IndexedState) uncacheRule(id string) {
+	s.cacheMu.Lock()
+	delete(s.cachedRules, id)
+	s.cacheMu.Unlock()
+}
+
+func (s *IndexedState) uncacheRules() {
+	s.cacheMu.Lock()
+	s.cachedRules = make(map[string]*Rule)
+	s.cacheMu.Unlock()
 }
